@@ -319,3 +319,82 @@ Proof.
       exact (rodrigues_is_expm_series w th i j Hw Hi' Hj').
 Qed.
 End SE3series.
+
+(* ===================================================================================================================
+   Generic form: ANY 3x3 matrix A with A^3 = -A (in the scaled forms below) has
+        Sum_k theta^k/k! (A^k)_ij = delta_ij + sin theta A_ij + (1 - cos theta) (A^2)_ij .
+   Instance: the 3x3 matrix [S] of a unit se(2) twist S = (t0, t1, w), w = +-1  (trexp2).
+   =================================================================================================================== *)
+Section Cube.
+Variables (A : M33 R) (th : R) (i j : nat).
+Let A2 := mmul33 Rops A A.
+Hypothesis Hc1 : forall c, mmul33 Rops A (mmul33 Rops A (mscale33 Rops c A)) = mscale33 Rops (- c) A.
+Hypothesis Hc2 : forall c, mmul33 Rops A (mmul33 Rops A (mscale33 Rops c A2)) = mscale33 Rops (- c) A2.
+
+Lemma mpow_cube_parity : forall n,
+  mpow33 A (2 * n + 1) = mscale33 Rops ((-1) ^ n) A /\ mpow33 A (2 * n + 2) = mscale33 Rops ((-1) ^ n) A2.
+Proof.
+  induction n as [|n [IHo IHe]].
+  - unfold A2. split; cbn [Nat.mul Nat.add mpow33 pow]; destruct A as [[[[a00 a01] a02] [[a10 a11] a12]] [[a20 a21] a22]];
+      autounfold with smlin; sm_simpl; tuple_eq ltac:(ring).
+  - split.
+    + replace (2 * S n + 1)%nat with (S (S (2 * n + 1))) by lia. cbn [mpow33]. rewrite IHo, Hc1. f_equal. simpl. ring.
+    + replace (2 * S n + 2)%nat with (S (S (2 * n + 2))) by lia. cbn [mpow33]. rewrite IHe, Hc2. f_equal. simpl. ring.
+Qed.
+
+Theorem cube_is_expm_series : (i < 3)%nat -> (j < 3)%nat ->
+  is_pseries (expm_coeff A i j) th (delta i j + sin th * e33 A i j + (1 - cos th) * e33 A2 i j).
+Proof.
+  intros Hi Hj.
+  assert (Hev : is_series (fun n => expm_coeff A i j (2 * n) * (th ^ 2) ^ n) (delta i j + e33 A2 i j * (1 - cos th))).
+  { apply series_cos_shape.
+    - unfold expm_coeff, delta. cbn [Nat.mul mpow33 fact]. req. simpl. field.
+    - intro m. unfold expm_coeff. replace (2 * S m)%nat with (2 * m + 2)%nat by lia.
+      destruct (mpow_cube_parity m) as [_ He]. rewrite He, e33_mscale. unfold cos_n.
+      replace (2 * m + 2)%nat with (2 * S m)%nat by lia.
+      assert (Hf : INR (fact (2 * S m)) <> 0) by apply INR_fact_neq_0.
+      change ((-1) ^ S m) with (-1 * (-1) ^ m).
+      generalize dependent (INR (fact (2 * S m))). generalize ((-1) ^ m) (e33 A2 i j). intros r1 r2 r3 Hr3. req. field. exact Hr3. }
+  destruct (sin_series th) as [a [Ha Hs]].
+  assert (Hod : is_series (fun n => expm_coeff A i j (2 * n + 1) * (th ^ 2) ^ n) (e33 A i j * a)).
+  { apply is_series_ext with (fun n => scal (e33 A i j) (sin_n n * (th ^ 2) ^ n)).
+    - intro n. symmetry. transitivity (e33 A i j * (sin_n n * (th ^ 2) ^ n)); [|reflexivity]. unfold expm_coeff.
+      destruct (mpow_cube_parity n) as [Ho _]. rewrite Ho, e33_mscale. unfold sin_n.
+      assert (Hf : INR (fact (2 * n + 1)) <> 0) by apply INR_fact_neq_0. req. field. exact Hf.
+    - apply (is_series_scal (e33 A i j) _ a). exact Ha. }
+  replace (delta i j + sin th * e33 A i j + (1 - cos th) * e33 A2 i j)
+    with ((delta i j + e33 A2 i j * (1 - cos th)) + th * (e33 A i j * a)) by (rewrite Hs; ring).
+  apply is_pseries_odd_even; apply is_pseries_R; assumption.
+Qed.
+End Cube.
+
+Section SE2series.
+Variables (Kt : thr) (t0 t1 w th : R).
+Let tw : V3 R := (t0,t1,w).
+Hypothesis HK : thr_ok Kt.
+Hypothesis Hw : w * w = 1.
+
+Lemma se2_hat_cube1 c : mmul33 Rops (se2_hat tw) (mmul33 Rops (se2_hat tw) (mscale33 Rops c (se2_hat tw))) = mscale33 Rops (- c) (se2_hat tw).
+Proof. unfold tw, se2_hat. autounfold with smlin. sm_simpl. tuple_eq ltac:(nsatz). Qed.
+Lemma se2_hat_cube2 c :
+  mmul33 Rops (se2_hat tw) (mmul33 Rops (se2_hat tw) (mscale33 Rops c (mmul33 Rops (se2_hat tw) (se2_hat tw))))
+  = mscale33 Rops (- c) (mmul33 Rops (se2_hat tw) (se2_hat tw)).
+Proof. unfold tw, se2_hat. autounfold with smlin. sm_simpl. tuple_eq ltac:(nsatz). Qed.
+
+Lemma e33_trexp2_unit i j : (i < 3)%nat -> (j < 3)%nat ->
+  e33 (trexp2_unit Rops Kt tw th) i j =
+  delta i j + sin th * e33 (se2_hat tw) i j + (1 - cos th) * e33 (mmul33 Rops (se2_hat tw) (se2_hat tw)) i j.
+Proof.
+  intros Hi Hj. unfold tw, trexp2_unit. rewrite rodrigues1_with_unit by assumption.
+  unfold delta, se2_hat, rodrigues1_th, Vmat2. cbn [cos_ sin_ Rops]. generalize (cos th) (sin th). intros c s. c03_simpl.
+  pose proof Hw as Hw'. clear HK.
+  destruct i as [|[|[|i]]]; try lia; destruct j as [|[|[|j]]]; try lia; cbn [e33]; clear Hi Hj; nsatz.
+Qed.
+
+Theorem trexp2_unit_is_expm_series i j : (i < 3)%nat -> (j < 3)%nat ->
+  is_pseries (expm_coeff (se2_hat tw) i j) th (e33 (trexp2_unit Rops Kt tw th) i j).
+Proof.
+  intros Hi Hj. rewrite (e33_trexp2_unit i j Hi Hj).
+  exact (cube_is_expm_series (se2_hat tw) th i j se2_hat_cube1 se2_hat_cube2 Hi Hj).
+Qed.
+End SE2series.
